@@ -4,4 +4,8 @@ NoDev == {}
 BeforeF2 == {"D_LexErrorsNotRaised", "D_NestedMismatchSwallowed"}
 CurrentDev == {}
 BothModes == {"inputs", "directory"}
+\* "samename": separate command-line inputs in directories of their own that all have the same base name, so that every
+\* one of them is written to the same page <out>/mod.rst (the run itself is the "inputs" machine; what differs is what the
+\* harness can observe: only the last page written survives)
+AllModes == {"inputs", "directory", "samename"}
 =============================================================================
